@@ -174,6 +174,17 @@ func isRangeIndexOf(idx ssa.Value, list ssa.Value) error {
 	if !ok || cmp.Op != token.LSS || cmp.X != add {
 		return fmt.Errorf("loop condition is not index < len(list)")
 	}
+	if k, ok := cmp.Y.(*ssa.Const); ok && list != nil {
+		// range over an array: the bound is the array's length
+		tt := list.Type().Underlying()
+		if pt, ok := tt.(*types.Pointer); ok {
+			tt = pt.Elem().Underlying()
+		}
+		if at, ok := tt.(*types.Array); ok && k.Value != nil && k.Int64() == at.Len() {
+			return nil
+		}
+		return fmt.Errorf("loop bound is a constant other than the array's length")
+	}
 	ln, ok := cmp.Y.(*ssa.Call)
 	if !ok {
 		return fmt.Errorf("loop bound is not len(list)")
@@ -1046,6 +1057,24 @@ func scannerKeywords(p *Prog) (*scanKeywords, error) {
 					if s, ok := constString(arg); ok {
 						k.Prefixes = append(k.Prefixes, s)
 						continue
+					}
+					// range element of a literal array: t = *alloc; t[i]
+					if ix, ok := arg.(*ssa.Index); ok {
+						if ld, ok := ix.X.(*ssa.UnOp); ok && ld.Op == token.MUL {
+							if al, ok := ld.X.(*ssa.Alloc); ok {
+								te := &tableEval{p: p}
+								if tv, err := te.evalArray(al, f); err == nil {
+									if ss, err := tv.Strings(); err == nil {
+										if err := isRangeIndexOf(ix.Index, ix.X); err != nil {
+											return nil, fmt.Errorf("%s: keyword list is not tried by a full forward range: %v", p.pos(c.Pos()), err)
+										}
+										k.Operators = append(k.Operators, ss...)
+										k.OperatorFn = f
+										continue
+									}
+								}
+							}
+						}
 					}
 					// range element of a literal list
 					if ld, ok := arg.(*ssa.UnOp); ok && ld.Op == token.MUL {
